@@ -2077,10 +2077,16 @@ impl<'a> BackendWriteTransaction<'a> {
         } = self;
 
         // write the ruv content back to the db.
+        #[cfg(feature = "verif-hooks")]
+        crate::verif::txn::pause("w.ruv_flush");
         idlayer.write_db_ruv(ruv.added(), ruv.removed())?;
 
         idlayer.commit().map(|()| {
+            #[cfg(feature = "verif-hooks")]
+            crate::verif::txn::pause("w.ruv");
             ruv.commit();
+            #[cfg(feature = "verif-hooks")]
+            crate::verif::txn::pause("w.idxmeta");
             idxmeta_wr.commit();
         })
     }
